@@ -8,7 +8,7 @@
     lr.Parser.Parse / ParseAndBuildAST, for every grammar, table and input. *)
 From Coq Require Import List ZArith.
 From Algo.Grammar Require Import CFG.
-From Algo.C11 Require Import Model ModelPrec ModelSLR Spec Proofs ProofsTerm ProofsOracle ProofsPrec ProofsPrecExpr ProofsLR0 ProofsSLR.
+From Algo.C11 Require Import Model ModelPrec ModelSLR ModelLR1 Spec Proofs ProofsTerm ProofsOracle ProofsPrec ProofsPrecExpr ProofsLR0 ProofsSLR.
 Import ListNotations.
 
 (** Soundness of the driver over any certified table: if [Parse] accepts [w] then [w] is a
@@ -221,6 +221,41 @@ Example C11_example :
   (match parse 100 ex_tbl [0;1;0;0;1;0;0] with Accepted evs => prods_of evs | _ => [] end) = [ex_p1; ex_p1; ex_p2].
 Proof. vm_compute. repeat split. Qed.
 
+(** The defect D11a, kept as a machine-checked witness (the Go code is repaired, see corpus):
+    for S -> a b a | S S a the unrepaired LALR construction produced the table [d11a_tbl]
+    (state 1 shifts [a] to state 2, whose kernel {S -> S S a . , S -> a . b a} strictly contains
+    the goto kernel).  It has no conflict, fails the certificate, and the driver accepts
+    "abaa", which is not a sentence. *)
+Definition d11a_G : gram := mkGrammar [0; 1] [ex_S] [ex_p1; ex_p2] ex_S.
+Definition d11a_tbl : table := mkTable
+  [ sh 0 0 6; sh 1 0 2; (1%Z, None, Accept);
+    rd 2 (Some 0) ex_p2; sh 2 1 5; rd 2 None ex_p2;
+    rd 3 (Some 0) ex_p1; rd 3 None ex_p1; sh 4 0 2; sh 5 0 3; sh 6 1 5 ]
+  [ (0%Z, ex_S, 1%Z); (1%Z, ex_S, 4%Z); (4%Z, ex_S, 4%Z) ].
+
+Theorem C11_d11a_unrepaired_table_refuted :
+  table_ok d11a_G d11a_tbl (infer_labels 7 d11a_tbl) = false /\
+  (exists evs, parse 100 d11a_tbl [0; 1; 0; 0] = Accepted evs) /\
+  ~ L d11a_G [0; 1; 0; 0] /\
+  table_ok d11a_G ex_tbl (infer_labels 7 ex_tbl) = true.
+Proof.
+  split; [vm_compute; reflexivity|]. split; [eexists; vm_compute; reflexivity|]. split; [|vm_compute; reflexivity].
+  intros HL.
+  assert (E : exists l, lang_upto 50 d11a_G 4 = Some l /\ mem_str [0; 1; 0; 0] l = false).
+  { eexists. split; vm_compute; reflexivity. }
+  destruct E as [l [E1 E2]].
+  pose proof (C11_oracle_complete d11a_G 50 4 l [0; 1; 0; 0] E1 HL (le_n 4)) as H.
+  rewrite E2 in H. discriminate.
+Qed.
+
+(** Non-vacuity of the construction theorems: the modelled SLR, LALR and canonical LR
+    constructions on S -> a b a | S S a build conflict-free tables with 11, 11 and 17 ACTION entries. *)
+Example C11_example_constructions :
+  (match build_slr 50 d11a_G [] with BuiltOk t => length (t_action t) | _ => 0 end,
+   match ModelLR1.build_lalr 50 d11a_G [] with BuiltOk t => length (t_action t) | _ => 0 end,
+   match ModelLR1.build_clr 50 d11a_G [] with BuiltOk t => length (t_action t) | _ => 0 end) = (11, 11, 17).
+Proof. vm_compute. reflexivity. Qed.
+
 Print Assumptions C11_driver_sound.
 Print Assumptions C11_driver_terminates.
 Print Assumptions C11_oracle_sound.
@@ -233,3 +268,4 @@ Print Assumptions C11_lr0_access_strings.
 Print Assumptions C11_witness_sound.
 Print Assumptions C11_slr_construction_ok.
 Print Assumptions C11_slr_parser_sound.
+Print Assumptions C11_d11a_unrepaired_table_refuted.
